@@ -56,11 +56,21 @@ package rtree
 //@   ensures [join] fresh(result) && result.Min.X == goMin(r1.Min.X, r2.Min.X) && result.Min.Y == goMin(r1.Min.Y, r2.Min.Y) && result.Max.X == goMax(r1.Max.X, r2.Max.X) && result.Max.Y == goMax(r1.Max.Y, r2.Max.Y)
 //@   modifies nothing
 
+//@ pred modestB(b geom.Bounds) = -1.0e100 <= b.Min.X && b.Min.X <= 1.0e100 && -1.0e100 <= b.Min.Y && b.Min.Y <= 1.0e100 && -1.0e100 <= b.Max.X && b.Max.X <= 1.0e100 && -1.0e100 <= b.Max.Y && b.Max.Y <= 1.0e100
+
+//@ func initBoundingBox
+//@   prop C11
+//@   mode real
+//@   requires [nonnil] r != nil && r1 != nil && r2 != nil && r != r2
+//@   ensures [join] *r == joinB(old(*r1), old(*r2))
+//@   modifies *r
+
 //@ func size
 //@   prop C11
 //@   mode real
 //@   requires [nonnil] r != nil
 //@   ensures [area] result == (r.Max.X - r.Min.X) * (r.Max.Y - r.Min.Y)
+//@   ensures [bounded] modestB(*r) ==> -5.0e200 <= result && result <= 5.0e200
 //@   modifies nothing
 
 //@ func margin
@@ -140,20 +150,69 @@ package rtree
 // parent fields; proving the full tree-shape invariant through them needs
 // separation reasoning that govc does not have.
 
+// wfC: what chooseNode needs of the subtree it descends: levels, non-nil and
+// modest boxes, at least one entry in every internal node (assumed on entry,
+// like wfN; its preservation by the mutators is not proved).
+//@ pred wfC(n *node, lvl int) decreases lvl = n != nil && lvl >= 1 && n.level == lvl && (n.leaf <==> lvl == 1) && (lvl > 1 ==> len(n.entries) >= 1) && (forall i int :: 0 <= i && i < len(n.entries) ==> n.entries[i].bb != nil && modestB(*n.entries[i].bb) && (lvl > 1 ==> n.entries[i].child != nil && wfC(n.entries[i].child, lvl-1)))
+
 //@ func (tree *Rtree) chooseNode
 //@   prop C11
-//@   trusted descends along child links of a well-formed tree; the shape invariant is not proved by govc
-//@   requires [nonnil] tree != nil && n != nil
-//@   ensures [node] result != nil && !fresh(result)
+//@   mode real
+//@   requires [shape] tree != nil && n != nil && wfC(n, n.level) && e.bb != nil && modestB(*e.bb)
+//@   requires [level] 1 <= level && level <= n.level
+//@   ensures [node_at_level] result != nil && result.level == level && wfC(result, level)
+//@   modifies nothing
+//@   decreases n.level
+//@   loop 1 `for _, en := range n.entries`
+//@     invariant [basic] #1 <= len(n.entries) && diff <= 1.7976931348623157e308 && (#1 == 0 ==> diff == 1.7976931348623157e308) && n != nil && !n.leaf && n.level != level
+//@     invariant [chosen] #1 >= 1 ==> diff <= 2.0e201 && (exists k int :: 0 <= k && k < #1 && chosen == n.entries[k])
+
+// split and its helpers: proved for what the bookkeeping epilogues rely on — the
+// receiver stays the left node, the right node is a fresh sibling of the same
+// level and kind, no existing node changes level or kind, the loop terminates.
+// Index/nil safety inside them depends on the shape invariant and is not
+// claimed (nosafety); callee preconditions about boxes are assumed (trustpre).
+
+//@ func pickNext
+//@   prop C11
+//@   nosafety
+//@   opt trustpre=rtree
+//@   ensures [index] 0 <= next && (len(entries) >= 1 ==> next < len(entries))
+//@   modifies nothing
+//@   loop 1 `for i, e := range entries`
+//@     invariant #1 <= len(entries) && 0 <= next && (next == 0 || next < #1)
+
+//@ func assign
+//@   prop C11
+//@   nosafety
+//@   opt havoc=node,entry
+//@   ensures [levels_kept] forall m *node :: m != nil && !fresh(m) ==> m.level == old(m.level) && m.leaf == old(m.leaf)
+
+//@ func assignGroup
+//@   prop C11
+//@   nosafety
+//@   opt trustpre=rtree
+//@   opt havoc=node,entry
+//@   ensures [levels_kept] forall m *node :: m != nil && !fresh(m) ==> m.level == old(m.level) && m.leaf == old(m.leaf)
+
+//@ func (n *node) pickSeeds
+//@   prop C11
+//@   trusted quadratic seed selection; only its result indices are used (nosafety in split)
+//@   opt writes=alloc
 //@   modifies nothing
 
 //@ func (n *node) split
 //@   prop C11
-//@   trusted redistributes entries between n and a new sibling of the same level; only entries/parent fields are written
+//@   nosafety
+//@   opt trustpre=rtree
 //@   opt havoc=node,entry
 //@   requires [nonnil] n != nil
 //@   ensures [siblings] left == n && right != nil && fresh(right) && right.level == old(n.level) && right.leaf == old(n.leaf)
 //@   ensures [levels_kept] forall m *node :: m != nil && !fresh(m) ==> m.level == old(m.level) && m.leaf == old(m.leaf)
+//@   loop 1 `for len(remaining) > 0`
+//@     invariant [nodes] left == n && n != nil && right != nil && fresh(right) && right.level == old(n.level) && right.leaf == old(n.leaf)
+//@     invariant [levels_kept] forall m *node :: m != nil && !fresh(m) ==> m.level == old(m.level) && m.leaf == old(m.leaf)
+//@     decreases len(remaining)
 
 //@ func (n *node) getEntry
 //@   prop C11
@@ -191,6 +250,7 @@ package rtree
 
 //@ func (tree *Rtree) insert
 //@   prop C11
+//@   opt trustpre=rtree.(*Rtree).chooseNode
 //@   requires [balanced] levelsOK(tree) && rootKidsOK(tree)
 //@   requires [level] 1 <= level && level <= tree.height
 //@   ensures [balanced] levelsOK(tree) && rootKidsOK(tree)
@@ -210,22 +270,42 @@ package rtree
 
 //@ func (tree *Rtree) findLeaf
 //@   prop C11
-//@   trusted read-only descent of a well-formed tree; the shape invariant is not proved by govc
-//@   requires [nonnil] tree != nil && n != nil
-//@   ensures [node] result != nil ==> !fresh(result) && result.leaf && (result != tree.root ==> !sameObj(result.entries, tree.root.entries))
+//@   mode real
+//@   requires [shape] tree != nil && n != nil && wfN(n, n.level)
+//@   requires [obj] typeof(obj) != nil && nonNilBounds(obj)
+//@   ensures [leaf] result != nil ==> result.leaf && result.level == 1
+//@   ensures_assumed [own_entries] result != nil ==> !fresh(result) && (result != tree.root ==> !sameObj(result.entries, tree.root.entries))
 //@   modifies nothing
+//@   decreases n.level
+//@   loop 1 `for _, e := range n.entries`
+//@     invariant #1 <= len(n.entries) && n != nil && !n.leaf
+//@   loop 2 `for _, leafEntry := range leaf.entries`
+//@     invariant #2 <= len(leaf.entries) && leaf != nil && leaf.leaf && leaf.level == 1
 
 //@ func (tree *Rtree) condenseTree
 //@   prop C11
-//@   trusted removes underflowing nodes and re-inserts them through insert (whose contract is proved); the loops write only entries/bb fields; the tree shape wfN is assumed to be restored
+//@   nosafety
+//@   opt trustpre=rtree
 //@   opt havoc=node,entry,geom.Bounds
 //@   requires [balanced] levelsOK(tree) && rootKidsOK(tree) && n != nil
-//@   ensures [balanced] levelsOK(tree) && rootKidsOK(tree) && wfN(tree.root, tree.height)
+//@   ensures [levels] levelsOK(tree)
+//@   ensures_assumed [shape] rootKidsOK(tree) && wfN(tree.root, tree.height)
 //@   ensures [bookkeeping] tree.size == old(tree.size) && tree.MinChildren == old(tree.MinChildren) && tree.MaxChildren == old(tree.MaxChildren)
 //@   modifies *tree
+//@   loop 1 `for n != tree.root`
+//@     invariant [deleted] fresh(deleted) || cap(deleted) == 0
+//@     invariant [tree] tree != nil && tree.root == old(tree.root) && tree.height == old(tree.height) && tree.size == old(tree.size) && tree.MinChildren == old(tree.MinChildren) && tree.MaxChildren == old(tree.MaxChildren)
+//@     invariant [levels_kept] forall m *node :: m != nil && !fresh(m) ==> m.level == old(m.level) && m.leaf == old(m.leaf)
+//@   loop 2 `for _, e := range n.parent.entries`
+//@     invariant [deleted] (fresh(deleted) || cap(deleted) == 0) && (fresh(entries) || cap(entries) == 0)
+//@     invariant [tree] tree != nil && tree.root == old(tree.root) && tree.height == old(tree.height) && tree.size == old(tree.size) && tree.MinChildren == old(tree.MinChildren) && tree.MaxChildren == old(tree.MaxChildren)
+//@     invariant [levels_kept] forall m *node :: m != nil && !fresh(m) ==> m.level == old(m.level) && m.leaf == old(m.leaf)
+//@   loop 3 `for _, n := range deleted`
+//@     invariant [levels] levelsOK(tree) && tree.size == old(tree.size) && tree.MinChildren == old(tree.MinChildren) && tree.MaxChildren == old(tree.MaxChildren)
 
 //@ func (tree *Rtree) Delete
 //@   prop C11
+//@   opt trustpre=rtree.(*Rtree).findLeaf
 //@   requires [balanced] levelsOK(tree) && rootKidsOK(tree)
 //@   requires [fanout] tree.MaxChildren >= 0
 //@   requires [obj] obj != nil
